@@ -208,6 +208,35 @@ def run(ctx):
                "queued conflicting branch removed when the sequence number is claimed" if okr and same_seq else "remove_actor_branch_from missing on some path after update_history, or called with a different seq")
     # isolate_actor's seq
     ib = ctx.body("automerge::automerge::Automerge::isolate_actor")
+    # the actor is reused only if every change it has made is in the history of the heads: a comparison of sequence numbers
+    # (seq_clock_for_heads vs seq_for_actor), never of op counters (a change without ops has its predecessor's max_op)
+    ctx.rule("R3-iso", "isolate_actor: the actor chosen for an isolated transaction (Clock::isolate) is edge-dominated by the true edge of `seq seen from the heads == seq_for_actor`; no max_op / covers test decides it")
+    reuse = [(bi, t) for bi, t in ib.calls() if (callee(t) or "").endswith("clock::Clock::isolate")]
+    ctx.floor("actor choices in isolate_actor", len(reuse), 1)
+    seq_eq = []
+    op_tests = []
+    for sb, sw in ib.switches():
+        src = ib.bool_operand_source(sw["op"])
+        if src and src["kind"] == "bin" and src["op"] in ("Eq", "Ne", "Ge", "Le"):
+            cs_ = set()
+            for o_ in src["o"]:
+                cs_ |= {N(c) for c in ib.provenance(o_, through_calls=True).callees()}
+            if any(c.endswith("ChangeGraph::seq_clock_for_heads") for c in cs_) and any(c.endswith("ChangeGraph::seq_for_actor") for c in cs_):
+                zero = [tb for v, tb in sw["targets"] if v == "0"]
+                eqish = src["op"] in ("Eq", "Ge", "Le")
+                if src["negated"]:
+                    eqish = not eqish
+                seq_eq += [(sb, sw["otherwise"])] if eqish else ([(sb, zero[0])] if zero else [])
+        if src and src["kind"] == "call" and N(src["callee"]).endswith("clock::Clock::covers"):
+            op_tests.append(util.where(ib, sb))
+        if src and src["kind"] == "bin":
+            for o_ in src["o"]:
+                if any(N(c).endswith("ChangeGraph::max_op_for_actor") for c in ib.provenance(o_, through_calls=False).callees()):
+                    op_tests.append(util.where(ib, sb))
+    for k_, (bi, t) in util.ordinal_keys(reuse, lambda it: "isolate_actor|actor reused"):
+        ok = bool(seq_eq) and ib.edges_dominate(seq_eq, bi) and not op_tests
+        ctx.ob("R3-iso", k_, ok, t["sp"], "only when the heads have seen every change of the actor (by sequence number)" if ok else
+               "the actor of an isolated transaction is chosen by op counters (%s) / without the sequence-number test: a change without ops outside the heads passes for covered, and the isolated change takes seq n+1 without seq n among its ancestors" % (op_tests or "none"))
     iso = [(bi, s) for bi, blk in enumerate(ib.blocks) for s in blk["st"] if s["rv"]["k"] == "Agg" and (s["rv"].get("adt") or "").endswith("::Isolation")]
     ctx.floor("Isolation constructions in isolate_actor", len(iso), 1)
     for bi, s in iso:
